@@ -14,6 +14,7 @@ Definition is_system (l : label) : bool :=
   match l with
   | LCall _ _ | LEmit _ _ | LTrigR _ | LTrigS _ | LParentCancel | LSubscribe _ | LSubRecv _ _
   | LSubCancel _ | LSubClosed _ | LSubRel _ | LPollBegin _ | LQuiet | LSnap _ => false
+  | LRunEnter => false                       (* the environment calls Run() *)
   | LPoll _ b => b
   | _ => true
   end.
@@ -25,6 +26,7 @@ Definition W (c : config) : nat := 2 * nrun c + 3.
 
 Definition main_rank (m : main_pc) : nat :=
   match m with
+  | MNew => 10 | MEntering => 9
   | MGate _ => 8 | MGateCheck _ => 7 | MLaunch _ => 6 | MReap => 5 | MExit _ => 4 | MWaitSd _ => 3
   | MReturned _ => 0
   end.
@@ -338,64 +340,87 @@ Proof.
   pose proof (mu_system_step _ _ _ _ Hsd Hl E) as X. rewrite M in X. inversion X.
 Qed.
 
-Lemma progress_is_system l : is_progress l = true -> is_system l = true.
-Proof. destruct l; cbn; try discriminate; auto. destruct b; auto. Qed.
+Lemma body_step_system s l : body_step s l = true -> is_system l = true.
+Proof. unfold body_step. destruct (sd s) as [|[|k]| | | |]; destruct l; cbn; try discriminate; auto; destruct e; auto; discriminate. Qed.
 
-Lemma stuck_no_progress c s : system_stuck c s -> ~ can_progress c s.
-Proof. intros St (l & Hp & Hs). apply Hs. apply St. now apply progress_is_system. Qed.
+Lemma main_step_system s l : main_step s l = true -> is_system l = true.
+Proof. destruct l; cbn; try discriminate; auto. destruct b; auto; discriminate. Qed.
 
-(* sup_c02_main_progress does not use its hypothesis that the timeout has not fired *)
-Lemma main_progress_any c s :
-  0 < nrun c -> reachable_sup c s -> sd s = SdDone -> (exists r, main s = MReturned r) \/ can_progress c s.
-Proof.
-  intros Hn Hre Es.
-  pose proof (InvWg_reachable _ _ Hre) as [W1 _]. rewrite Es in W1.
-  assert (Hc : ctx_done s = true) by (unfold ctx_done; rewrite W1; reflexivity).
-  pose proof (InvGate_reachable _ _ Hre) as IG.
-  destruct (main s) eqn:Em.
-  - right. destruct (Nat.ltb i (nrun c)) eqn:L.
-    + enabled (LLaunch i). unfold step. cbn [step0]. rewrite Em, Nat.eqb_refl, L, Es. cbn. discriminate.
-    + exfalso. apply Nat.ltb_ge in L. pose proof (launch_idx_lt c s Hn Hre i Em). lia.
-  - right. destruct (polling (aux s)) eqn:Ep.
-    + enabled (LPoll i true). unfold step. cbn [step0]. rewrite Em, Nat.eqb_refl. discriminate.
-    + enabled (LGateCtx i). unfold step. cbn [step0]. rewrite Em, Nat.eqb_refl, Hc, Ep. cbn.
-      destruct (errq s); discriminate.
-  - right. enabled (LGateDecide i). unfold step. cbn [step0]. rewrite Em, Nat.eqb_refl.
-    destruct (errq s); discriminate.
-  - right. enabled LReapCtx. unfold step. cbn [step0]. rewrite Em, Hc. discriminate.
-  - right. enabled LMainShutdown. unfold step. cbn [step0]. rewrite Em. discriminate.
-  - right. enabled (LMainReturn r). unfold step. cbn [step0]. rewrite Em, Es.
-    destruct r; try discriminate. rewrite Nat.eqb_refl. discriminate.
-  - left. eexists; reflexivity.
-Qed.
+Lemma caller_step_system k l : caller_step k l = true -> is_system l = true.
+Proof. destruct l; cbn; try discriminate; auto. Qed.
 
 (* a reachable post-shutdown state in which the implementation cannot move: the shutdown body is
-   done, Run() has returned, and no Shutdown() caller is left inside the library *)
+   done, Run() has returned (or was never called), and no Shutdown() caller is left inside the library *)
 Theorem sup_c02_stuck_returned c s :
-  good c -> 0 < nrun c -> reachable_sup c s -> sd s <> SdNot -> system_stuck c s ->
-  sd s = SdDone /\ (exists r, main s = MReturned r) /\
+  good c -> 0 < nrun c -> reachable_sup c s -> sd s <> SdNot -> sdfirst_ok c s -> system_stuck c s ->
+  sd s = SdDone /\ (main s = MNew \/ exists r, main s = MReturned r) /\
   (forall k cs, find_caller k (callers s) <> Some (OpShutdown, cs)).
 Proof.
-  intros G Hn Hre Hsd St. pose proof (stuck_no_progress _ _ St) as NP.
+  intros G Hn Hre Hsd Hok St.
   assert (Es : sd s = SdDone).
-  { pose proof (sup_c02_body_progress c s Hre G) as B. destruct (sd s); try contradiction; congruence. }
+  { pose proof (sup_c02_body_progress c s Hre G Hok) as B.
+    destruct (sd s); try congruence; exfalso; destruct B as (l & Hl & Hs); apply Hs, St;
+      eapply body_step_system; exact Hl. }
   split; [exact Es|]. split.
-  - destruct (main_progress_any c s Hn Hre Es) as [X|X]; [exact X|contradiction].
-  - intros k cs Hf. apply NP. eapply sup_c02_caller_returns; eassumption.
+  - destruct (sup_c02_main_progress c s Hn Hre Es) as [X|[X|(l & Hl & Hs)]]; [now left|now right|].
+    exfalso. apply Hs, St. eapply main_step_system; exact Hl.
+  - intros k cs Hf. destruct (sup_c02_caller_returns c s k cs Es Hf) as (l & Hl & Hs).
+    apply Hs, St. eapply caller_step_system; exact Hl.
+Qed.
+
+(* sdfirst_ok is about a flag that no step clears and about the configuration: it is stable *)
+Lemma sdfirst_ok_step c s l s' :
+  sd s <> SdNot -> sdfirst_ok c s -> step c s l = Some s' -> sdfirst_ok c s'.
+Proof.
+  intros Hsd Hok H A. apply Hok.
+  destruct (step_sd_all _ _ _ _ H) as [[E _]|(X & _)]; [congruence|contradiction].
+Qed.
+
+Lemma sdfirst_ok_run c ls : forall s s',
+  sd s <> SdNot -> sdfirst_ok c s -> run (step c) s ls = Some s' -> sdfirst_ok c s'.
+Proof.
+  induction ls as [|l ls IH]; intros s s' Hsd Hok H.
+  - now injection H as <-.
+  - cbn [run] in H. destruct (step c s l) as [s1|] eqn:E; [|discriminate].
+    eapply IH; [eapply post_shutdown_step; eassumption|eapply sdfirst_ok_step; eassumption|exact H].
 Qed.
 
 (* every maximal execution of the implementation after shutdown start is finite and ends with
    Run() returned *)
 Theorem sup_c02_maximal c s ls s' :
-  good c -> 0 < nrun c -> reachable_sup c s -> sd s <> SdNot ->
+  good c -> 0 < nrun c -> reachable_sup c s -> sd s <> SdNot -> sdfirst_ok c s ->
   run (step c) s ls = Some s' -> forallb is_system ls = true ->
   length ls <= mu c s /\
-  (system_stuck c s' -> sd s' = SdDone /\ exists r, main s' = MReturned r).
+  (system_stuck c s' -> sd s' = SdDone /\ (main s' = MNew \/ exists r, main s' = MReturned r)).
 Proof.
-  intros G Hn Hre Hsd H Hall. split; [eapply sup_c02_terminates; eassumption|].
+  intros G Hn Hre Hsd Hok H Hall. split; [eapply sup_c02_terminates; eassumption|].
   intros St.
   assert (Hre' : reachable_sup c s').
   { destruct Hre as [ls0 H0]. exists (ls0 ++ ls). now rewrite run_app, H0. }
   pose proof (post_shutdown_run _ _ _ _ Hsd H) as Hsd'.
-  destruct (sup_c02_stuck_returned c s' G Hn Hre' Hsd' St) as (A & B & _). now split.
+  pose proof (sdfirst_ok_run _ _ _ _ Hsd Hok H) as Hok'.
+  destruct (sup_c02_stuck_returned c s' G Hn Hre' Hsd' Hok' St) as (A & B & _). now split.
 Qed.
+
+(* for Examples: a concrete (closed) state in which no step of the implementation is enabled; case analysis on
+   the label and its indices, each case decided by computation *)
+Ltac concrete_stuck :=
+  let l := fresh "l" in let Hl := fresh "Hl" in
+  unfold system_stuck; intros l Hl; destruct l; try discriminate Hl; unfold step; cbn [step0];
+  repeat match goal with
+         | |- context [Nat.eqb ?i ?j] => is_var i; destruct i
+         | |- context [Nat.ltb ?i ?j] => is_var i; destruct i
+         | |- context [find_caller ?k _] => is_var k; destruct k as [|[|?]]
+         | |- context [find_sub ?k _] => is_var k; destruct k
+         | |- context [get _ _ ?k] => is_var k; destruct k
+         | |- context [rn_at _ ?k] => is_var k; destruct k
+         | |- context [mon_at _ ?k] => is_var k; destruct k
+         | o : op |- _ => destruct o
+         | g : sig |- _ => destruct g
+         | w : sender |- _ => destruct w
+         | r : result |- _ => destruct r
+         | b : bool |- _ => destruct b
+         end;
+  try discriminate Hl; vm_compute;
+  repeat (try reflexivity; match goal with |- context [match ?i with _ => _ end] => is_var i; destruct i; vm_compute end);
+  try reflexivity.
